@@ -30,6 +30,8 @@ def tr_num(n):
         return '.seatsLeft'
     if isinstance(n, ast.Constant) and isinstance(n.value, int) and not isinstance(n.value, bool):
         return '(.lit %d)' % n.value
+    if isinstance(n, ast.BinOp) and isinstance(n.op, ast.Sub):
+        return '(.sub %s %s)' % (tr_num(n.left), tr_num(n.right))
     raise TranslationError('not a count of the accepted form: %s' % ast.dump(n)[:140])
 
 
@@ -104,13 +106,23 @@ def guards(repo):
                 and isinstance(loops[0].test.operand, ast.Call) and getattr(loops[0].test.operand.func, 'id', None) == 'countComplete'
             if not ok:
                 raise TranslationError('%s: the main loop of count() is not `while not countComplete()`' % path)
+    # the cap on a batch of sure losers
+    for r, lean in (('wigm_prf', 'wigmPrf'), ('meek', 'meek'), ('mpls', 'mpls')):
+        path = os.path.join(repo, 'droop', 'rules', r + '.py')
+        tree = ast.parse(open(path).read(), path)
+        hits = [n for n in ast.walk(tree) if isinstance(n, ast.Assign) and len(n.targets) == 1
+                and isinstance(n.targets[0], ast.Name) and n.targets[0].id == 'maxDefeat']
+        if len(hits) != 1:
+            raise TranslationError('%s: %d assignments to maxDefeat' % (path, len(hits)))
+        out[lean + 'MaxDefeat'] = (tr_num(hits[0].value), 'C01.maxDefeatProg', 'NEx')
     return out
 
 
 def lean_file(gs):
     lines = ['import Props.C01Prog', 'namespace Gen', 'open Droop Droop.C01', '']
-    for name, (text, target) in sorted(gs.items()):
-        lines.append('def %s : GProg := %s' % (name, text))
+    for name, v in sorted(gs.items()):
+        text, target = v[0], v[1]
+        lines.append('def %s : %s := %s' % (name, v[2] if len(v) > 2 else 'GProg', text))
         lines.append('theorem %s_is_committed : %s = %s := by rfl' % (name, name, target))
         lines.append('#print axioms %s_is_committed' % name)
         lines.append('')
